@@ -78,7 +78,7 @@ def _build(c, tmp):
     return runs.build(c)
 
 
-def scenario(cfg, n_resume, seed2):
+def scenario(cfg, n_resume, seed2, second_gen=False):
     """Run with save_every=1, restore every checkpoint, resume from some."""
     from tempest.core import SamplerCore
     out = dict(bad=[], saves=0, restored=0, resumed=0, nontrivial_resume=0)
@@ -177,6 +177,32 @@ def scenario(cfg, n_resume, seed2):
             ev = s3.evidence()[0]
             if abs(ev - float(lz)) > 1e-8 * (1 + abs(float(lz))):
                 out["bad"].append(("resume-evidence", f"evidence() {ev} != reference {float(lz)}"))
+            # second generation: a checkpoint written *by the resumed run* must restore and resume as well
+            if second_gen and T3 > hl + 1:
+                tmp2 = tmpdir()
+                try:
+                    c2 = dict(c, output_dir=tmp2)
+                    s4 = _build(c2, tmp2)[0]
+                    np.random.seed(seed2 + 1000 + k)
+                    s4.run(n_total=c["n_total"], progress=False, resume_state_path=sv["path"], save_every=1)
+                    files = sorted((f for f in os.listdir(tmp2) if f.startswith("ck_") and "final" not in f and f.endswith(".state")),
+                                   key=lambda f: int(f.split("_")[1].split(".")[0]))
+                    if files:
+                        H4 = runs.history(s4)
+                        pick = files[len(files) // 2]
+                        it_pick = int(pick.split("_")[1].split(".")[0])
+                        s5 = _build(c2, tmp2)[0]
+                        s5.run(n_total=c["n_total"], progress=False, resume_state_path=os.path.join(tmp2, pick))
+                        H5 = runs.history(s5)
+                        out["second_gen"] = out.get("second_gen", 0) + 1
+                        if digest(H5["u"][:it_pick]) != digest(H4["u"][:it_pick]) or [int(i) for i in H5["iter"]] != list(range(1, len(H5["iter"]) + 1)):
+                            out["bad"].append(("resume-second-generation", f"resuming from {pick} written by a resumed run: prefix or numbering differs"))
+                        if digest(H4["u"][:hl]) != digest(H["u"][:hl]):
+                            out["bad"].append(("resume-prefix-changed", "first-generation prefix changed in the second-generation run"))
+                except Exception as e:
+                    out["bad"].append(("resume-raises", f"second-generation resume raised {type(e).__name__}: {e}"))
+                finally:
+                    shutil.rmtree(tmp2, ignore_errors=True)
         return out
     finally:
         shutil.rmtree(tmp, ignore_errors=True)
@@ -397,7 +423,7 @@ def run():
     tasks = [("tvf.checks.c08:scenario", dict(cfg=make_cfg(i, ck.subseed("cfg", i)), n_resume=ck.pick(2, 6), seed2=ck.subseed("res", i)), None)
              for i in idxs]
     if not ck.quick:
-        tasks += [("tvf.checks.c08:scenario", dict(cfg=make_cfg(i, ck.subseed("cfg2", i)), n_resume=4, seed2=ck.subseed("res2", i)), None)
+        tasks += [("tvf.checks.c08:scenario", dict(cfg=make_cfg(i, ck.subseed("cfg2", i)), n_resume=4, seed2=ck.subseed("res2", i), second_gen=True), None)
                   for i in range(ncfg)]
     for i, st, val in farm.run(tasks, timeout=900, progress="C08-restore"):
         cfg = tasks[i][1]["cfg"]
@@ -412,6 +438,7 @@ def run():
         ck.event("checkpoints restored into a fresh sampler and compared", val["restored"])
         ck.event("resumed runs completed", val["resumed"])
         ck.event("resumed runs that executed further iterations", val["nontrivial_resume"])
+        ck.event("second-generation resumes (checkpoint written by a resumed run)", val.get("second_gen", 0))
         for key, what in val["bad"]:
             ck.violation(key, what, dict(cfg=cfg))
     # crash points
